@@ -80,6 +80,29 @@ func checkC02(c *core.Ctx) {
 				}
 			}
 		}
+		// the rule is linear in the upstream gradient: upstream scaled by 2^-565 (~1e-170) and 2^+500 (~3e150)
+		for _, k := range []int{-565, 500} {
+			k := k
+			c.Case(fmt.Sprintf("%s|upstream2^%d", oc.ID(), k), true, func() core.Verdict {
+				in := genInputs(oc.Op, oc.In, 104)
+				p := &ref.Program{Leaves: in}
+				ids := make([]int, len(in))
+				for i := range in {
+					p.Tracked = append(p.Tracked, true)
+					ids[i] = i
+				}
+				p.Nodes = []ref.Node{{Op: oc.Op, In: ids}}
+				if _, ok := p.Forward(); !ok {
+					return core.Skip()
+				}
+				q, root := withWeighting(p, len(in), 9)
+				v := upstreamLinearCase(q, root, k)
+				if !v.OK && !v.Skip {
+					v.Detail = describeProgram(q) + " :: " + v.Detail
+				}
+				return v
+			})
+		}
 		// special class: base 0 for Pow with exponent 0, 1 or 2
 		if oc.Op.K == "Pow" && (oc.Op.F == 0 || oc.Op.F == 1 || oc.Op.F == 2) {
 			for wi := 0; wi < 2; wi++ {
